@@ -692,6 +692,9 @@ class Analysis:
                     other = a if op_const(rv['r']) is not None else c
                     if other is not None:
                         st.add(padd(at, other, -1))      # x & m <= x   (x unsigned)
+                    if mask > 0:
+                        # x & m is a multiple of 2^k (k = trailing zero bits of m): non-zero means >= 2^k
+                        self.__dict__.setdefault('gran', {})[name] = mask & -mask
                     return ('i', at)
             if base in ('Shr', 'Div') and a is not None:
                 name = 'S%d_%d' % (b, l)
@@ -966,7 +969,12 @@ class Analysis:
                         op_ = dv[1] if truth else {'Eq': 'Ne', 'Ne': 'Eq'}.get(dv[1])
                         if op_ == 'Ne':
                             # a != c: strict on the side that is already known
-                            if self.prove(st, padd(dv[3], dv[2], -1)):
+                            gr = None
+                            if not dv[3] and len(dv[2]) == 1 and list(dv[2].values())[0] == 1 and len(list(dv[2])[0]) == 1:
+                                gr = getattr(self, 'gran', {}).get(list(dv[2])[0][0])
+                            if gr:
+                                s2.add(padd(const(gr), dv[2], -1))                  # a != 0 and a multiple of 2^k: 2^k <= a
+                            elif self.prove(st, padd(dv[3], dv[2], -1)):
                                 s2.add(padd(padd(dv[3], dv[2], -1), const(1)))      # c <= a  ->  c + 1 <= a
                             elif self.prove(st, padd(dv[2], dv[3], -1)):
                                 s2.add(padd(padd(dv[2], dv[3], -1), const(1)))
@@ -1041,6 +1049,13 @@ class Analysis:
                     # preds where the option is None carry no payload: vacuous
                     if all(v[2] is not None or v[1] == 'None' for v in vs):
                         new.vals[l] = ('opt', tag, defined[0])
+                        pay = defined[0]
+                        if len(pay) == 1 and list(pay.values())[0] == 1 and len(list(pay)[0]) == 1:
+                            a_ = list(pay)[0][0]
+                            for i, v in enumerate(vs):
+                                if v[2] is None and not any(self.mentions(ov, a_) for ol, ov in preds[i].vals.items() if ol != l) \
+                                        and not any(a_ in atoms_of(f_) for f_ in preds[i].facts.values()):
+                                    subs[i][a_] = None       # facts about the payload are vacuous on this edge (the option is None there)
                     else:
                         new.vals[l] = ('opt', tag, None)
                 else:
@@ -1082,8 +1097,10 @@ class Analysis:
             for i, p in enumerate(preds):
                 inv = self.inverse(subs[i])
                 for f in p.facts.values():
-                    g = psubst(f, inv) if inv else f
-                    cands.setdefault(ckey(norm(g)), norm(g))
+                    cands.setdefault(ckey(f), f)
+                    if inv and atoms_of(f) & inv.keys():
+                        g = norm(psubst(f, inv))
+                        cands.setdefault(ckey(g), g)
             is_head = B in getattr(self, 'loops', {})
             # hull candidates: phi against the value it has on each incoming edge
             for i, s_ in enumerate(subs):
@@ -1128,6 +1145,14 @@ class Analysis:
                         acc[i].append(g)
             if ok and not self.trivial(f):
                 new.add(f)
+        if DEBUG and os.environ.get('RELINV_LOST'):
+            import sys as _s
+            common = set(preds[0].facts)
+            for p in preds[1:]:
+                common &= set(p.facts)
+            for k in common - set(new.facts):
+                if os.environ['RELINV_LOST'] in pshow(preds[0].facts[k]):
+                    _s.stderr.write('   LOST at join %d: %s (visible %s)\n' % (B, pshow(preds[0].facts[k]), atoms_of(preds[0].facts[k]) <= visible))
         return new
 
     def trivial(self, f):
